@@ -72,6 +72,10 @@ class Recorder:
             self.events.append((self.loop.time(), self.loop.iter, kind, arg))
 
 
+FAILURE_CLASSES = [RuntimeError, ConnectionError, ValueError, OSError, KeyError, ConnectionRefusedError, EOFError, TimeoutError,
+                   AssertionError, LookupError]
+
+
 def run_scenario(script, close_at=None, threshold=5, sleep_sec=5, max_delay=60, max_iters=100000, close_time=None,
                  real_protocol=False):
     """script: list of (outcome, duration, lifetime): outcome 'ok'/'fail', duration = seconds the attempt
@@ -106,7 +110,9 @@ def run_scenario(script, close_at=None, threshold=5, sleep_sec=5, max_delay=60, 
             await asyncio.sleep(0)
         if outcome == "fail":
             rec.ev("failed", k)
-            raise ConnectionError("scripted failure")
+            # a user-supplied factory may fail with ANY exception: the class varies with the attempt number (not only the
+            # OSError family), every one of them is a failed attempt
+            raise FAILURE_CLASSES[k % len(FAILURE_CLASSES)]("scripted failure")
         tr = FakeTransport(rec, k)
         if real_protocol:
             pr = mc.SmartMeterMessageProtocol(asyncio.Queue(), [])
